@@ -1,1 +1,13 @@
 import BddVerif.Props.C04
+#print axioms B.Props.C04.fused2_spec
+#print axioms B.Props.C04.fused2_operand
+#print axioms B.Props.C04.and_consistent
+#print axioms B.Props.C04.flipB_spec
+#print axioms B.Props.C04.fused_eq_separate
+#print axioms B.Props.C04.flip_bounds
+#print axioms B.Props.C04.no_panic_of_bounds
+#print axioms B.Props.C04.fused3_spec
+#print axioms B.Props.C04.fused3_operand
+#print axioms B.Props.C04.fused3_eq_separate
+#print axioms B.Props.C04.flip_bounds3
+#print axioms B.Props.C04.flip_bounds3_panic
